@@ -211,9 +211,9 @@ class QuotientFilter:
             int: The next hash stored in the quotient filter"""
         queue: List[int] = []
 
-        # find first empty location
+        # find first empty location (or, in a completely full filter, the start of a cluster)
         start = 0
-        while not self._is_empty_element(start):
+        while not self._is_empty_element(start) and not self._is_cluster_start(start):
             start += 1
 
         cur_quot = 0
